@@ -5,6 +5,8 @@ import (
 	"math"
 	"os"
 	"path/filepath"
+	"reflect"
+	"runtime"
 	"sort"
 	"strconv"
 	"strings"
@@ -140,6 +142,8 @@ type zoneEvent struct {
 
 func (e zoneEvent) Location() *time.Location { return e.loc }
 
+var zoneHeaders, zoneAddrReused int
+
 func zoneHandler(args []string) (string, []string) {
 	var ps propSink
 	if len(args) == 0 {
@@ -170,10 +174,33 @@ func zoneHandler(args []string) (string, []string) {
 		if len(args) != 4 {
 			return "bad-request", nil
 		}
-		loc, err := time.LoadLocation(args[1])
-		if err != nil {
-			return "err", nil
+		// The zone object of the previous header is dropped and collected BEFORE the new one is loaded, and the
+		// new one is loaded until the allocator hands out the address the old one had (or 300 tries are used up):
+		// whatever the library remembers about "the zone at this address" is now about another zone.
+		var prevAddr uintptr
+		if curZone != nil && curZone.loc != nil {
+			prevAddr = reflect.ValueOf(curZone.loc).Pointer()
 		}
+		curZone = nil
+		runtime.GC()
+		var loc *time.Location
+		var err error
+		var keep []*time.Location
+		for try := 0; try < 300; try++ {
+			loc, err = time.LoadLocation(args[1])
+			if err != nil {
+				return "err", nil
+			}
+			if prevAddr == 0 || reflect.ValueOf(loc).Pointer() == prevAddr {
+				if prevAddr != 0 {
+					zoneAddrReused++
+				}
+				break
+			}
+			keep = append(keep, loc)
+		}
+		_ = keep
+		zoneHeaders++
 		off0, _ := strconv.Atoi(args[2])
 		z := &zoneState{name: args[1], loc: loc, off0: off0}
 		if args[3] != "-" {
